@@ -123,7 +123,15 @@ func genC04(seed uint64, idx int, tier string) *Scenario {
 		a.Ops = append(a.Ops, op)
 	}
 	if !p.UDP {
-		a.Ops = append(a.Ops, Op{K: "close"})
+		cl := Op{K: "close"}
+		if style == 0 && r.Chance(0.35) {
+			// fault: the client sends its last command completely and is gone before the reply can be written
+			// (lock-step delivery, so every earlier command has been answered); the command still counts
+			cl.Note = "same-step"
+			class += "+leaves-early"
+			sc.Faults = append(sc.Faults, "client-leaves-before-last-reply")
+		}
+		a.Ops = append(a.Ops, cl)
 	}
 	sc.Class = pn + "/" + class
 	sc.Actors = []Actor{a}
@@ -293,6 +301,9 @@ func runC04(t *testing.T, sc *Scenario) Result {
 		res.probe("events-compared", len(linesV))
 	}
 	res.probe("segments", obsV.Steps)
+	for _, f := range sc.Faults {
+		res.fault(f, 1)
+	}
 	return res
 }
 
